@@ -488,7 +488,8 @@ func ParsePDUAddress(b []byte) (*PDUAddress, error) {
 // ---------------------------------------------------------------------------------------
 // Session-AMBR, TS 24.501 9.11.4.14 (value part, 6 octets): unit for downlink, session-AMBR
 // for downlink (16 bits), unit for uplink, session-AMBR for uplink (16 bits).
-// Unit: 1 = 1 kbit/s, 2 = 4 kbit/s, ... each step a factor 4 ... 25 = 256 Pbit/s.
+// Unit: 1..5 = 1, 4, 16, 64, 256 kbit/s; 6..10 = 1 .. 256 Mbit/s; 11..15 Gbit/s; 16..20 Tbit/s;
+// 21..25 = 1 .. 256 Pbit/s (decimal prefixes).
 
 type SessionAMBR struct {
 	DLUnit uint8
@@ -514,7 +515,11 @@ func AMBRKbps(unit uint8, value uint16) (uint64, bool) {
 	if unit < 1 || unit > 25 {
 		return 0, false
 	}
-	return uint64(value) << (2 * uint(unit-1)), true
+	k := uint64(value) << (2 * uint((unit-1)%5))
+	for g := (unit - 1) / 5; g > 0; g-- {
+		k *= 1000
+	}
+	return k, true
 }
 
 // ---------------------------------------------------------------------------------------
